@@ -475,7 +475,7 @@ impl Context {
                 .iter()
                 .map(|(k, v)| {
                     let k = self.lit_into_ty(k, k_ty)?.0;
-                    let v = self.lit_into_ty(v, v_ty)?.0;
+                    let v = self.lit_as_rvalue(v, v_ty)?.0;
                     anyhow::Ok(format!("map.insert({k}, {v});"))
                 })
                 .try_collect::<_, Vec<_>, _>()?
@@ -681,7 +681,7 @@ impl Context {
                 }),
             ) => {
                 let ident = self.cur_related_item_path(*did);
-                let (stream, is_const) = self.lit_into_ty(l, inner_ty)?;
+                let (stream, is_const) = self.lit_as_rvalue(l, inner_ty)?;
                 (format! { "{ident}({stream})" }.into(), is_const)
             }
             (Literal::Map(_), CodegenTy::StaticRef(map)) => match &**map {
@@ -768,7 +768,7 @@ impl Context {
 
                         if let Some(v) = v {
                             let (mut v, is_const) =
-                                self.lit_into_ty(v, &self.codegen_item_ty(f.ty.kind.clone()))?;
+                                self.lit_as_rvalue(v, &self.codegen_item_ty(f.ty.kind.clone()))?;
 
                             if f.is_optional() {
                                 v = format!("Some({v})").into()
@@ -804,7 +804,7 @@ impl Context {
     fn list_stream(&self, els: &[Literal], inner: &Arc<CodegenTy>) -> anyhow::Result<String> {
         Ok(els
             .iter()
-            .map(|el| self.lit_into_ty(el, inner))
+            .map(|el| self.lit_as_rvalue(el, inner))
             .try_collect::<_, Vec<_>, _>()?
             .into_iter()
             .map(|(s, _)| s)
